@@ -67,9 +67,10 @@ def rule_prefix_default(rep: Report, repo: Repo, rule: str) -> None:
     # assigned only in the directory branch
     for n in walk_no_nested(fn):
         if isinstance(n, ast.Assign) and norm(n.targets[0]) == "new_settings.rst.prefix":
-            from ..model import guards_of
+            from ..model import guards_of, guard_atoms
             gs = guards_of(fn, n, repo.module("cminx").parents)
-            rep.check(any("os.path.isdir(input_path)" in norm(g.test) and g.polarity for g in gs), rule, "cminx:document",
+            facts = guard_atoms(gs)
+            rep.check(any(t.startswith("os.path.isdir(") and "input" in t and pol for t, pol in facts), rule, "cminx:document",
                       "default prefix only for directory inputs", "a lone input file receives a default prefix")
     rep.floor(rule, 4, "prefix default facts")
 
